@@ -26,7 +26,7 @@ ASSUMPTIONS = [
     "sequences are chained in one application instance separated by a successful feed (which clears the count); the reference counter runs along",
     "command payload schemas inside the NCP model are bellows' own tables",
 ]
-PROBES = ["feed.V", "feed.S", "feed.T", "feed.E", "feed.T2", "feed.E2", "raised", "raised_again_on_6th", "read_and_clear_used", "loop_connection_lost", "loop_survived_4_failures",
+PROBES = ["counters.zero", "counters.sat", "counters.mixed", "feed.V", "feed.S", "feed.T", "feed.E", "feed.T2", "feed.E2", "raised", "raised_again_on_6th", "read_and_clear_used", "loop_connection_lost", "loop_survived_4_failures",
           "v4_nop", "success_after_4_failures", "noise.incoming_message", "noise.command_ok", "noise.join", "noise.stack_status", "noise.route_error"]
 
 from ..ncpmodel import St as St_  # noqa: E402
@@ -52,6 +52,11 @@ def plan(tier):
     for V in (4, 8, 14):
         for pre in itertools.product("TE", repeat=2):
             sweeps.append(("enum", {"V": V, "prefix": "".join(pre), "k": k, "alpha": "STE", "noise": True, "sched": False}))
+    # the counters the keep-alive reads are saturated (0xFFFF) or large: their VALUES steer nothing
+    for V in (8, 14):
+        for pre in itertools.product("ST", repeat=2):
+            sweeps.append(("enum", {"V": V, "prefix": "".join(pre), "k": k, "alpha": "STE", "counters": "sat", "sched": False}))
+        sweeps.append(("loop", {"V": V, "script": "SSTTTTSTTTTT", "counters": "sat", "sched": False}))
     kb = 5 if tier == "quick" else 7
     for seq in itertools.product("STEV", repeat=kb):
         if seq[0] != "S":  # sequences starting with S are covered by a shorter one shifted by a feed
@@ -83,7 +88,12 @@ def run(scenario, params, tape, detail=False):
     rig = e3app.AppRig(tape, version=V, sched=params.get("sched", True))
     loop, ncp = rig.loop, rig.ncp
     ncp.preform()
-    viol, probes = [], {}
+    cmode = params["counters"] if "counters" in params else (("zero", "sat", "mixed")[tape.draw(3, "counters")] if scenario in ("long", "noisy", "loop") and "script" not in params else "zero")
+    if cmode == "sat":
+        ncp.counters_boot = ncp.counters = [0xFFFF if i % 3 == 0 else 0xFFFE for i in range(len(ncp.counters))]
+    elif cmode == "mixed":
+        ncp.counters_boot = ncp.counters = [(0, 1, 0xFFFF, 0x8000, 255)[(i * 7 + V) % 5] for i in range(len(ncp.counters))]
+    viol, probes = [], {"counters." + cmode: 1}
     sigs = set()
     nseq = [0]
     samples = []
